@@ -115,7 +115,7 @@ func (e *EcdsGenerator) Generate(proxy *model.Proxy, w *model.WatchedResource, r
 		}
 	}
 
-	ec := e.ConfigGenerator.BuildExtensionConfiguration(proxy, req.Push, w.ResourceNames.UnsortedList(), secrets)
+	ec := e.ConfigGenerator.BuildExtensionConfiguration(proxy, req.Push, sets.SortedList(w.ResourceNames), secrets)
 
 	if ec == nil {
 		return nil, model.DefaultXdsLogDetails, nil
